@@ -157,6 +157,16 @@ class Stepped(dulprovider.DULServiceProvider):
         if not hasattr(sm, 'action') or not hasattr(sm, 'current_state'):
             raise Machinery('seam broken: StateMachine.action / current_state')
         real_action = sm.action
+        # a queue with a bound would make put() BLOCK the single thread this harness runs in: turn that into a Hang
+        q = self.to_service_user
+        if hasattr(q, 'maxsize') and hasattr(q, 'put'):
+            orig_put = q.put
+
+            def put(item, block=True, timeout=None, q=q, orig_put=orig_put):
+                if q.maxsize and q.qsize() >= q.maxsize:
+                    raise Hang('the queue of indications to the local user is full (%d): put() blocks the event loop' % q.maxsize)
+                return orig_put(item, block, timeout)
+            q.put = put
 
         def action(evt):
             self.actions.append((evt, sm.current_state))
@@ -199,7 +209,16 @@ class Stepped(dulprovider.DULServiceProvider):
         return None
 
     # -- projection
+    lazy_user = False     # the local user is slow: indications stay in the queue until the end of the run
+    _seen_inds = 0
+
     def drain_user(self):
+        q = self.to_service_user
+        if self.lazy_user and hasattr(q, 'queue'):
+            items = list(q.queue)                 # look, do not take
+            out = items[self._seen_inds:]
+            self._seen_inds = len(items)
+            return out
         out = []
         while True:
             try:
